@@ -422,7 +422,13 @@ theorem parLine_spec (pc0 : Option Nat) (out0 : List (Nat × Op)) (p : ParSt Op)
     (ha : startPc s.porg s.pc l.sa = some a) (pc' : Nat) (removed' : List Nat) (out' : List (Nat × Op)) (a1 : Nat)
     (hl : specLine size a s.removed s.out l = some (pc', removed', out', a1)) :
     ∃ p', parLine size p l = .ok p' ∧
-      ParRel size pc0 out0 p' (St.mk (some pc') out' (setdefault s.amap l.sa a1) removed' true .unset) := by
+      ParRel size pc0 out0 p' (St.mk (some pc') out' (setdefault s.amap l.sa a1) removed' true .unset) ∧
+      -- shape of the entry, for the label locations
+      (∃ (cop : Option Op) (ri : List (PIns Op)) (o1 : List (Nat × Op)),
+        p'.entry = p.entry ++ mkBefore (if p.entry.isEmpty then insOrg p.org l.sa else none)
+            (compose (l.subs.filter (fun s => s.flags.prepend)) false) ++ [PIns.mk l.sa cop (insOrg p.org l.sa)] ++ ri ∧
+        ∀ o, seqBody size (some a) s.out (mkBefore o (compose (l.subs.filter (fun s => s.flags.prepend)) false)) =
+          .ok (some a1, o1)) := by
   have hrem := hr.removed
   unfold specLine at hl
   simp only at hl
@@ -449,7 +455,7 @@ theorem parLine_spec (pc0 : Option Nat) (out0 : List (Nat × Op)) (p : ParSt Op)
         simp only [hoth, curOf, restOf, List.filterMap_nil] at hr2
         have hc : compose ([] : List (SubDir Op)) true = [] := rfl
         simp only [hc, List.head?_nil, Option.bind_none, Option.none_or]
-        refine ⟨_, rfl, ⟨?_, rfl, by simp, by simp, ?_⟩⟩
+        refine ⟨_, rfl, ⟨?_, rfl, by simp, by simp, ?_⟩, ⟨l.op, [], out1, by simp, hbefore⟩⟩
         · cases hop : l.op with
           | none => simp only [hop, specChain, Option.some.injEq, Prod.mk.injEq] at hr2; exact hr2.2.1
           | some o =>
@@ -518,7 +524,7 @@ theorem parLine_spec (pc0 : Option Nat) (out0 : List (Nat × Op)) (p : ParSt Op)
           intro hri
           simp only at hri
           simp only [hri]
-          refine ⟨_, rfl, ⟨rfl, rfl, by simp, by simp, ?_⟩⟩
+          refine ⟨_, rfl, ⟨rfl, rfl, by simp, by simp, ?_⟩, ⟨_, ri, out1, rfl, hbefore⟩⟩
           have := seq_line size p s pc0 out0 l hr a ha
             { addr := l.sa, op := (curOf l.op (s0 :: r0)).2, org := insOrg p.org l.sa } rfl
             (compose (l.subs.filter (fun s => s.flags.prepend)) false) ri (some pc2, out2)
@@ -582,7 +588,8 @@ theorem parItem_spec (pc0 : Option Nat) (out0 : List (Nat × Op)) (p : ParSt Op)
         · rename_i pc' removed' out' a1 hl
           simp only [Option.some.injEq] at h
           subst h
-          exact parLine_spec size pc0 out0 p s l hr hg a ha pc' removed' out' a1 hl
+          obtain ⟨p', h1, h2, _⟩ := parLine_spec size pc0 out0 p s l hr hg a ha pc' removed' out' a1 hl
+          exact ⟨p', h1, h2⟩
 
 theorem parItems_spec (pc0 : Option Nat) (out0 : List (Nat × Op)) (is : List (Item Op)) :
     ∀ (p : ParSt Op) (s s' : St Op), ParRel size pc0 out0 p s → specItems size s is = some s' →
